@@ -10,15 +10,19 @@
           history of calls, for all inputs, MTUs, flags;
     (iii) the layer is not blind: the same transcription with the copy of the retention step
           removed (the code before the repair) leaves `input i` in the state.
-  "Does not modify the input" is not part of this layer (there is no store into a `PBytes`): the
+  H264Payloader (retains SPS/PPS between calls) and H265Payloader (retains nothing, but used to
+  hand out a sub-slice) are covered.  "Does not modify the input" is not part of this layer (there is no store into a `PBytes`): the
   transcriptions contain no operation that writes through an input-origin slice; on the Go side it
   is the `inputSame` probe.
 -/
 import Rtp.Proofs.ProvH264
+import Rtp.Proofs.ProvH265
 namespace Rtp.Props.C08.Prov
-open Rtp Rtp.Model Rtp.Model.Prov Rtp.Model.H264 Rtp.Proofs.ProvH264
+open Rtp Rtp.Model Rtp.Model.Prov
 
 /-! ### H264Payloader (`spsNalu`, `ppsNalu` retained across calls) -/
+section H264
+open Rtp.Model.H264 Rtp.Proofs.ProvH264
 
 /-- all fragments of all calls and the state after the last call are owned -/
 def H264RunOwned (r : List (List PBytes) × PPayState) : Prop :=
@@ -87,5 +91,63 @@ example : (provPayload false 1200 {} 3 [0, 0, 1, 0x67, 1, 2]).2.sps = some ⟨[0
     the STAP-A and the IDR leave, all in new arrays, nothing is retained -/
 example : runProvPayload {} 0 [(false, 1200, [0,0,1, 0x67,1, 0,0,1, 0x68,2]), (false, 1200, [0,0,1, 0x65,7])] =
     ([[], [⟨[0x78, 0,2, 0x67,1, 0,2, 0x68,2], .fresh⟩, ⟨[0x65,7], .fresh⟩]], {}) := by decide +kernel
+
+end H264
+
+/-! ### H265Payloader (no slice is retained between calls: the receiver keeps only the DONL counter;
+    within a call `bufferedNALUs` holds views of the caller's buffer until the next flush) -/
+section H265
+open Rtp.Model.H265 Rtp.Proofs.ProvH265
+
+/-- (i) projection, one call: fragments and the DONL counter, for every configuration, MTU,
+    counter, call number and input (nil included) -/
+theorem c08_prov_h265_projection (cfg : Cfg) (mtu donl : UInt16) (i : Nat) (input : Option Bytes) :
+    (forgetAll (provPayload cfg mtu donl i input).1, (provPayload cfg mtu donl i input).2) =
+      payload cfg mtu donl input :=
+  forget_pPayloadG PBytes.copy (fun _ => rfl) cfg mtu donl i input
+
+/-- (i) projection, a whole history -/
+theorem c08_prov_h265_history_projection (cfg : Cfg) (donl : UInt16) (i : Nat)
+    (calls : List (UInt16 × Option Bytes)) :
+    (H265.runProvPayload cfg donl i calls).map forgetAll = payloadHist cfg donl calls :=
+  forget_pPayloadHistG PBytes.copy (fun _ => rfl) cfg donl i calls
+
+/-- (ii) ownership, one call: single NAL unit packets (with and without DONL), aggregation packets
+    and fragmentation units are all new arrays; the type of the result shows that no slice is kept -/
+theorem c08_prov_h265_owned (cfg : Cfg) (mtu donl : UInt16) (i : Nat) (input : Option Bytes) :
+    AllOwned (provPayload cfg mtu donl i input).1 :=
+  owned_pPayloadG PBytes.copy (fun _ => rfl) cfg mtu donl i input
+
+/-- (ii) ownership, any history of calls -/
+theorem c08_prov_h265_history (cfg : Cfg) (donl : UInt16) (i : Nat)
+    (calls : List (UInt16 × Option Bytes)) :
+    ∀ o ∈ H265.runProvPayload cfg donl i calls, AllOwned o :=
+  owned_pPayloadHistG PBytes.copy (fun _ => rfl) cfg donl i calls
+
+/-- the code before the repair computes the same VALUES … -/
+theorem c08_prov_h265_unrepaired_projection (cfg : Cfg) (mtu donl : UInt16) (i : Nat)
+    (input : Option Bytes) :
+    (forgetAll (provPayloadUnrepaired cfg mtu donl i input).1, (provPayloadUnrepaired cfg mtu donl i input).2) =
+      payload cfg mtu donl input :=
+  forget_pPayloadG id (fun _ => rfl) cfg mtu donl i input
+
+/-- (iii) … but its single NAL unit packet is a view of the caller's buffer: one unit in call 2 -/
+theorem c08_prov_h265_unrepaired_witness :
+    (provPayloadUnrepaired ⟨false, false⟩ 1200 0 2 (some [0, 0, 1, 0x26, 0x01, 0xAA])).1 =
+      [⟨[0x26, 0x01, 0xAA], .input 2⟩] ∧
+    ¬ AllOwned (provPayloadUnrepaired ⟨false, false⟩ 1200 0 2 (some [0, 0, 1, 0x26, 0x01, 0xAA])).1 := by
+  decide +kernel
+
+/-- the repaired code on the same call: the same bytes in a new array -/
+example : (provPayload ⟨false, false⟩ 1200 0 2 (some [0, 0, 1, 0x26, 0x01, 0xAA])).1 =
+    [⟨[0x26, 0x01, 0xAA], .fresh⟩] := by decide +kernel
+
+/-- non-vacuity: two units aggregated (MTU 20), then a unit fragmented (MTU 6) — new arrays throughout -/
+example : H265.runProvPayload ⟨false, false⟩ 0 0
+      [(20, some [0,0,1, 0x26,0x01,0xAA, 0,0,1, 0x02,0x01,0xBB]), (6, some [0x26,0x01,1,2,3,4,5])] =
+    [[⟨[0x60,0x01, 0,3, 0x26,0x01,0xAA, 0,3, 0x02,0x01,0xBB], .fresh⟩],
+     [⟨[0x62,0x01,0x93, 1,2,3], .fresh⟩, ⟨[0x62,0x01,0x53, 4,5], .fresh⟩]] := by decide +kernel
+
+end H265
 
 end Rtp.Props.C08.Prov
